@@ -87,7 +87,7 @@ pub fn search(seed: u64, budget: &Budget, thorough: bool) -> (u64, Option<(Strin
     let rounds = if thorough { 100000 } else { 1500 };
     for _ in 0..rounds {
         if !budget.left() { break; }
-        let alpha: &[u8] = *rng.pick(&[&b"ACGT"[..], b"AC", b"ACGTN", b"ACGTacgt"]);
+        let alpha: &[u8] = *rng.pick(&[&b"ACGT"[..], b"AC", b"ACGTN", b"ACGTacgt", b"ACGTNacgtn", b"atn", b"ANan"]);
         let ns = 1 + rng.below(2) as usize;
         let seqs: Vec<Vec<u8>> = (0..ns).map(|_| { let n = 1 + rng.below(14) as usize; rng.bytes(n, alpha) }).collect();
         let pl = 1 + rng.below(7) as usize;
